@@ -37,7 +37,9 @@ def _files():
     import btc_hd_wallet.base_wallet as b
     import btc_hd_wallet.paper_wallet as c
     import btc_hd_wallet.bip85 as d
-    return [m.__file__ for m in (a, b, c, d)]
+    import btc_hd_wallet.script as e
+    import btc_hd_wallet.keys as f
+    return [m.__file__ for m in (a, b, c, d, e, f)]
 
 
 def idx():
@@ -78,6 +80,11 @@ class World:
             self.W = PW.from_bip39_seed_bytes(seed, testnet)
             self.master_xprv = self.W.master.extended_private_key()
         self.pool = [(self.W.master, [])]
+
+    def make_twin(self):
+        """Another wallet object over the SAME key material on the other network (same process)."""
+        t = World(self.seed, not self.testnet, self.watch_only)
+        return t
 
     def root_string(self):
         m = self.W.master
@@ -314,6 +321,7 @@ def gen_history(tier):
         st.tuples(st.just("g_send"), st.integers(0, 5), st.sampled_from([1, 1, 2, 3, 10])),
         st.tuples(st.just("repeat"), st.integers(0, 40)),
         st.tuples(st.just("repeat"), st.integers(0, 40)),
+        st.tuples(st.just("twin"), requests(light=True)),
     )
     return st.fixed_dictionaries({
         "seed": S.seeds(16, 32), "testnet": st.booleans(), "watch_only": st.sampled_from([False, False, True]),
@@ -329,6 +337,7 @@ def check_history(case, ctx):
     except R.Invalid:
         return
     mark = "M" if wo else "m"
+    twin = None
     gens = []        # [generator, base_path, kind, model_index or None (not started)]
     done = []        # (req, result) of executed plain requests
     nontrivial = False
@@ -359,6 +368,27 @@ def check_history(case, ctx):
                     raise Violation("C13/history/generator", "%s: generator over %s yielded %r, expected index %d -> %r"
                                     % (where, R.fmt_path(g[1]), got, g[3], want))
                 nontrivial = nontrivial or g[3] > 0
+                continue
+            if kind == "twin":
+                # the same key material in a second wallet object on the other network
+                if twin is None:
+                    twin = world.make_twin()
+                treq = adapt(list(op[1]), wo)
+                tpaths = [p for _, p in twin.pool]
+                if treq is None or not request_ok(treq, tpaths):
+                    continue
+                if treq[0] in ("ckd", "derive_path", "children", "address", "node_keys", "xkeys", "str", "concat", "gen_take"):
+                    treq[1] = treq[1] % len(twin.pool)
+                want = norm(expected(twin, treq, tpaths))
+                st_, res = call(do_request, twin, treq)
+                if st_ == "exc":
+                    raise Violation("C13/history/raised", "%s (twin wallet) raised %r" % (where, res))
+                if norm(res[0]) != want:
+                    raise Violation("C13/history/result-depends-on-other-wallet[%s]" % treq[0],
+                                    "%s on a second wallet over the same keys (other network) gave %s, expected %s"
+                                    % (where, str(norm(res[0]))[:300], str(want)[:300]))
+                twin.pool.extend(res[1])
+                nontrivial = True
                 continue
             if kind == "repeat":
                 if not done:
@@ -405,6 +435,7 @@ def gen_schedule(tier):
         "seed": S.seeds(16, 32), "testnet": st.booleans(), "watch_only": st.sampled_from([False, False, True]),
         "setup": st.lists(short_path(3), min_size=1, max_size=3),
         "threads": st.lists(st.lists(requests(light=True), min_size=1, max_size=3), min_size=2, max_size=4),
+        "twin_thread": st.sampled_from([None, None, 0, 1]),
         "plan": st.lists(st.tuples(st.integers(0, 3), st.one_of(st.integers(1, 12), st.integers(1, 60))), min_size=3, max_size=80),
     })
 
@@ -420,15 +451,17 @@ def build_world(case):
 
 
 def judge_threads(case, world, results, errors, pool_paths, ctx, sig):
+    wmap = case.get("_worlds") or {}
     for t, reqs in enumerate(case["threads"]):
         if t in errors:
             raise Violation(sig + "/thread-crashed", "thread %d running %r raised %r" % (t, reqs, errors[t]))
         got_all = results.get(t)
+        tw = wmap.get(t, world)
         for j, req in enumerate(reqs):
             req = adapt(req, world.watch_only)
             if req is None or not request_ok(req, pool_paths):
                 continue
-            want = norm(expected(world, req, pool_paths))
+            want = norm(expected(tw, req, pool_paths))
             got = norm(got_all[j])
             if got != want:
                 raise Violation(sig + "/result-depends-on-interleaving[%s]" % req[0],
@@ -441,6 +474,23 @@ def judge_threads(case, world, results, errors, pool_paths, ctx, sig):
         for ch in list(node.children):
             if len(path) < 60 and summary(ch)[:6] != ref_summary(world.rm, path + [ch.index], world.testnet)[:6]:
                 raise Violation(sig + "/recorded-child-wrong", "node %s holds a wrong child for index %d" % (R.fmt_path(path), ch.index))
+
+
+def worlds_for(case, world):
+    """thread index -> world it works on (one thread may use the twin wallet of the other network)."""
+    tt = case.get("twin_thread")
+    out = {}
+    twin = None
+    for t in range(len(case["threads"])):
+        if tt is not None and t == tt:
+            if twin is None:
+                twin = world.make_twin()
+                for node, p in world.pool[1:]:
+                    twin.pool.append((twin.W.master.derive_path(list(p)), list(p)))
+            out[t] = twin
+        else:
+            out[t] = world
+    return out
 
 
 def thread_fn(world, reqs, pool_paths):
@@ -464,7 +514,9 @@ def check_schedule(case, ctx):
         return
     pool_paths = [p for _, p in world.pool]
     sched = Scheduler([tuple(x) for x in case["plan"]], _files())
-    thunks = [thread_fn(world, reqs, pool_paths) for reqs in case["threads"]]
+    wmap = worlds_for(case, world)
+    case = dict(case, _worlds=wmap)
+    thunks = [thread_fn(wmap[t], reqs, pool_paths) for t, reqs in enumerate(case["threads"])]
     results, errors = sched.run(thunks)
     ctx.count("switch-points", sched.points)
     ctx.count("switches", sched.switches)
@@ -494,9 +546,11 @@ def check_free(case, ctx):
             except BaseException as e:  # noqa: BLE001
                 errors[t] = e
         return body
+    wmap = worlds_for(case, world)
+    case = dict(case, _worlds=wmap)
     sys.setswitchinterval(1e-6)
     try:
-        ths = [threading.Thread(target=wrap(t, thread_fn(world, reqs, pool_paths)), daemon=True)
+        ths = [threading.Thread(target=wrap(t, thread_fn(wmap[t], reqs, pool_paths)), daemon=True)
                for t, reqs in enumerate(case["threads"])]
         for th in ths:
             th.start()
